@@ -67,7 +67,9 @@ func shapes() []func() map[string]any {
 			return map[string]any{"a": map[string]any{"b": []any{map[string]any{"f": nil}, "leaf2"}, "0": nil}, "s": "leaf3"}
 		},
 		func() map[string]any { return map[string]any{"0": []any{[]any{nil}}, "l": []any{}} },
-		func() map[string]any { return map[string]any{"in": map[string]any{"files": []any{nil, nil, nil}, "n": "leaf4"}} },
+		func() map[string]any {
+			return map[string]any{"in": map[string]any{"files": []any{nil, nil, nil}, "n": "leaf4"}}
+		},
 	}
 }
 
@@ -180,6 +182,11 @@ func Run(c *gen.Ctx) error {
 	if err != nil {
 		return err
 	}
+	nu, err := runUploads(c, r.Fork(10), meta)
+	if err != nil {
+		return err
+	}
+	nt += nu
 	meta.Evaluations = up.Len() + nt
 	meta.DistinctNontrivial += len(distinct)
 	meta.Rule = meta.Rule + " || AddUpload: 7 variable shapes (no variables, empty, null leaf, list, nested maps/lists incl. numeric-looking keys) x all map paths of 1 and 2 segments over a 20-segment alphabet (existing and missing keys, in-range, out-of-range, negative, signed, zero-padded, overflowing and non-numeric indices, empty segment) plus paths without the prefix, plus random (quick) or all (thorough) 3..5-segment paths; distinct_nontrivial = distinct (shape, path) pairs that pass the prefix test. Transports: see distribution."
